@@ -127,6 +127,48 @@ def cond_single_return(a):
     return b
 
 
+def guard_then_reassign(x, k):
+    if x > 1:
+        if k > 0:
+            return k
+    x = x * 2
+    return x + 1
+
+
+def pass_then_reassign(x):
+    if x > 1:
+        pass
+    x = x * 2
+    return x + 1
+
+
+def two_guards_then_reassign(x, k):
+    if x > 1:
+        if k > 0:
+            return k
+    if k > 2:
+        pass
+    else:
+        x = x + k
+    x = x * 2
+    k = k + x
+    return x + k
+
+
+def uses_k(a, b):
+    return a * K - b
+
+
+def uses_k_branch(a):
+    if a > K:
+        return a - K
+    return K
+
+
+# functions reading the module constant K: translated again after K is rebound (same interpreter)
+REBIND = [("uses_k", None), ("uses_k", ["b", "a"]), ("uses_k_branch", None)]
+
+
 def mod_common_factor(a):
     return (-a) % (2 * a)
 
@@ -157,4 +199,8 @@ WITNESSES = [
     ("elif_assign", None),
     ("early", None),
     ("cond_single_return", ["x"]),
+    ("guard_then_reassign", None),
+    ("guard_then_reassign", ["k", "x"]),
+    ("pass_then_reassign", None),
+    ("two_guards_then_reassign", None),
 ]
